@@ -155,8 +155,9 @@ def run_check(pid, tier, replay=None):
         else:
             mod.run(ctx)
     except Exception as e:  # machinery failure
-        traceback.print_exc()
-        print("MACHINERY-FAILURE property=%s %s: %s" % (pid, type(e).__name__, str(e)[:2000]))
+        tb = traceback.format_exc()
+        print(tb[-1500:] if not isinstance(e, tlc.TlcFailure) else "")
+        print("MACHINERY-FAILURE property=%s %s: %s" % (pid, type(e).__name__, str(e)[-2500:]))
         return 2
     known = load_known()
     reported = {}
